@@ -55,6 +55,7 @@ Insert(d, p, b) ==
 \* a builder one of whose nodes (the first or the last) was given the referent c of an instance of the DOM
 InsertCollide(d, p, b, k, c) ==
     /\ InsertCollideS(d, p, b, k, c)
+    /\ nextRef' = nextRef + k - 1          \* the model follows the code: the nodes before the colliding one are in place
     /\ IF k = 1 THEN UidUnchanged
        ELSE /\ uid' \in UidCands(NewRange(k - 1), [r \in NewRange(k - 1) |-> b[r - nextRef + 1].uid], {})
             /\ InsertCollideU(d, p, b, k)
